@@ -96,7 +96,13 @@ Definition tags_of (fs : list fplan2) : list Z :=
 Fixpoint nodup_z (l : list Z) : bool :=
   match l with [] => true | x :: tl => negb (existsb (Z.eqb x) tl) && nodup_z tl end.
 
-Definition wf_field (E : list cplan2) (i : nat) (flexible : bool) (f : fplan2) : bool :=
+(* reader and writer codec of an array field agree on the items: a tagged field is written with
+   the non-nullable writer, which may only differ from the reader at the top level (a null ITEM
+   read by a nullable item reader could not be written back) *)
+Definition arr_items_eq (w r : codec) : bool :=
+  match w, r with CArr _ x, CArr _ y => codec_eqb x y | _, _ => true end.
+
+Definition wf_field0 (E : list cplan2) (i : nat) (flexible : bool) (f : fplan2) : bool :=
   codec_sub (f2_w f) (f2_r f) && refs_lt i (f2_w f) && items_nonempty E (f2_w f)
   && codec_ok (f2_w f) && codec_ok (f2_r f)
   && match f2_tag f with
@@ -106,6 +112,9 @@ Definition wf_field (E : list cplan2) (i : nat) (flexible : bool) (f : fplan2) :
                     then be the default, which the writer elides *)
                  && (codec_eqb (f2_w f) (f2_r f) || val_eqb (f2_default f) VNull)
      end.
+
+Definition wf_field (E : list cplan2) (i : nat) (flexible : bool) (f : fplan2) : bool :=
+  wf_field0 E i flexible f && arr_items_eq (f2_w f) (f2_r f).
 
 Definition wf_class (E : list cplan2) (i : nat) (c : cplan2) : bool :=
   forallb (wf_field E i (c2_flexible c)) (c2_fields c) && nodup_z (tags_of (c2_fields c)).
